@@ -220,7 +220,22 @@ void Stats::processMsg(int sockfd) {
   }
   root["body"] = body;
   std::string ret = root.toStyledString();
-  if (Util::writeFull(sockfd, ret.c_str(), strlen(ret.c_str())) < 0) {
+  // send(MSG_NOSIGNAL): a client that hung up must not SIGPIPE the daemon
+  const char* reply_buf = ret.c_str();
+  size_t reply_left = strlen(reply_buf);
+  ssize_t sent = 0;
+  while (reply_left > 0) {
+    sent = ::send(sockfd, reply_buf, reply_left, MSG_NOSIGNAL);
+    if (sent < 0) {
+      if (errno == EINTR) {
+        continue;
+      }
+      break;
+    }
+    reply_buf += sent;
+    reply_left -= sent;
+  }
+  if (sent < 0) {
     OLOG << "Stats server error: writing to socket: "
          << ::strerror_r(errno, err_buf.data(), err_buf.size());
   }
